@@ -14,6 +14,7 @@ import json
 import multiprocessing
 import os
 import random
+import signal
 import subprocess
 import sys
 import time
@@ -228,10 +229,20 @@ def shrink(engine, plan, target, known, budget_s=60.0):
 # batch
 # --------------------------------------------------------------------------
 _WORKER = {}
+RUN_HANG_LIMIT_S = 600
+
+
+class _RunHang(BaseException):
+    pass
+
+
+def _on_alarm(signum, frame):
+    raise _RunHang()
 
 
 def _worker_init(engine_name, prop):
     faulthandler.enable()
+    signal.signal(signal.SIGALRM, _on_alarm)
     from . import engines
     _WORKER["engine"] = engines.get(engine_name)
     _WORKER["engine"].setup()
@@ -240,6 +251,15 @@ def _worker_init(engine_name, prop):
 
 
 def _worker_chunk(args):
+    try:
+        return _worker_chunk_inner(args)
+    except HarnessError:
+        raise
+    except BaseException:
+        raise HarnessError("exception in the harness (worker):\n" + traceback.format_exc())
+
+
+def _worker_chunk_inner(args):
     base_seed, tier, lo, hi, deadline = args
     eng = _WORKER["engine"]
     prop = _WORKER["prop"]
@@ -258,7 +278,19 @@ def _worker_chunk(args):
             break
         seed = run_seed(base_seed, prop, idx)
         plan = eng.gen_plan(prop, seed, tier)
-        res = execute(eng, plan, known)
+        signal.setitimer(signal.ITIMER_REAL, RUN_HANG_LIMIT_S)
+        try:
+            try:
+                res = execute(eng, plan, known)
+            except (HarnessError, _RunHang):
+                raise
+            except Exception:
+                raise HarnessError("exception in the harness at run index %d (seed %d):\n%s" % (idx, seed, traceback.format_exc()))
+        except _RunHang:
+            raise HarnessError("run index %d (seed %d) did not finish within %ds (hang); replay with the plan generator to investigate"
+                               % (idx, seed, RUN_HANG_LIMIT_S))
+        finally:
+            signal.setitimer(signal.ITIMER_REAL, 0)
         done += 1
         steps += res["steps"]
         agg.update(res["stats"])
